@@ -185,20 +185,29 @@ Theorem diag_index_in_range : forall pp is_call ls site i,
 Proof. exact diag_index_in_range_lemma. Qed.
 Print Assumptions diag_index_in_range.
 
-(* Every SyntaxError is located on the malformed line (culprit), or is of one of the four no-line / sub-list kinds. *)
+(* Every SyntaxError is located on the malformed line (culprit), or is of one of the three no-line / sub-list kinds
+   (F14b): raised while a @for body was re-parsed; a content error inside an @if / @for block; post-parse validation. *)
 Theorem diag_classified : forall pp is_call ls site i,
   parse_real pp is_call ls = PDiag (DSyntax site i) ->
   i < length ls /\
   (culprit_at (prepass ls) site i \/
    (bsite site = true /\ raised_in_loop_body (prepass ls) site i) \/
    (csite site = true /\ i = 0 /\ raised_in_block (prepass ls) site) \/
-   (csite site = true /\ unplaced_at (prepass ls) site i) \/
    (callsite site = true /\ i = 0)).
 Proof. exact diag_classified_lemma. Qed.
 Print Assumptions diag_classified.
 
-(* The 26 main-loop sites and the 14 block sites: the diagnostic's index is the line of the malformed construct (the
-   opening line for unclosed blocks), unless a block site was raised while a @for body was re-parsed (F14b). *)
+(* Every site that can have a line (26 main-loop sites, 14 block sites, 2 content sites): the diagnostic's index is the
+   line of the malformed construct (the opening line for unclosed blocks), unless a block site was raised while a @for
+   body was re-parsed or a content site was raised inside an @if / @for block (F14b). *)
+Theorem culprit_all_line_sites : forall pp is_call ls site i,
+  parse_real pp is_call ls = PDiag (DSyntax site i) -> has_line_site site = true ->
+  (exists l, nth_error (prepass ls) i = Some l /\ culprit site l = true) \/
+  (bsite site = true /\ raised_in_loop_body (prepass ls) site i) \/
+  (csite site = true /\ i = 0 /\ raised_in_block (prepass ls) site).
+Proof. exact culprit_all_line_sites_lemma. Qed.
+Print Assumptions culprit_all_line_sites.
+
 Theorem culprit_covered_sites : forall pp is_call ls site i,
   parse_real pp is_call ls = PDiag (DSyntax site i) -> covered site = true ->
   (exists l, nth_error (prepass ls) i = Some l /\ culprit site l = true) \/
@@ -219,22 +228,22 @@ Theorem culprit_block_sites_outside_loops : forall pp is_call ls site i,
 Proof. exact culprit_block_sites_outside_loops_lemma. Qed.
 Print Assumptions culprit_block_sites_outside_loops.
 
-(* content sites: only part of the raise sites have a line *)
-Theorem culprit_content_sites_partial : forall pp is_call ls site i,
+(* content sites (brace errors, the nesting cap of inline conditionals): on a content line, in a `-> @join` block and in
+   the text of a choice the index is the line (since /repo 53252c0, eecafed also for choice texts and the nesting cap);
+   inside an @if / @for block there is no line *)
+Theorem culprit_content_sites : forall pp is_call ls site i,
   parse_real pp is_call ls = PDiag (DSyntax site i) -> csite site = true ->
   (exists l, nth_error (prepass ls) i = Some l /\ culprit site l = true) \/
-  (i = 0 /\ raised_in_block (prepass ls) site) \/
-  unplaced_at (prepass ls) site i.
-Proof. exact culprit_content_sites_partial_lemma. Qed.
-Print Assumptions culprit_content_sites_partial.
+  (i = 0 /\ raised_in_block (prepass ls) site).
+Proof. exact culprit_content_sites_lemma. Qed.
+Print Assumptions culprit_content_sites.
 
-Theorem content_braces_outside_blocks : forall pp is_call ls i,
-  parse_real pp is_call ls = PDiag (DSyntax "content:braces" i) ->
+Theorem culprit_content_sites_outside_blocks : forall pp is_call ls site i,
+  parse_real pp is_call ls = PDiag (DSyntax site i) -> csite site = true ->
   no_block_opener (prepass ls) = true ->
-  (forall l, nth_error (prepass ls) i = Some l -> site_is (parse_choice_line l) "content:braces" = false) ->
-  exists l, nth_error (prepass ls) i = Some l /\ culprit "content:braces" l = true.
-Proof. exact content_braces_outside_blocks_lemma. Qed.
-Print Assumptions content_braces_outside_blocks.
+  exists l, nth_error (prepass ls) i = Some l /\ culprit site l = true.
+Proof. exact culprit_content_sites_outside_blocks_lemma. Qed.
+Print Assumptions culprit_content_sites_outside_blocks.
 
 (* the "call:*" sites never have a line; and no site name is missing from the four lists *)
 Theorem call_sites_carry_no_line : forall pp is_call ls site i,
@@ -291,3 +300,16 @@ Example culprit_demo_nested_block :
   culprit "for-missing-colon" "  @for i in xs" = true.
 Proof. vm_compute. repeat split; reflexivity. Qed.
 
+(* a brace error in the TEXT of a choice stands on the choice's line (was: no line, until /repo 53252c0) *)
+Example culprit_demo_choice_text :
+  parse_real ex_pp (fun _ => true) [":: Start"; "Hello."; "+ [Go {x] -> Start"] = PDiag (DSyntax "content:braces" 2) /\
+  choice_text_rejected "content:braces" "+ [Go {x] -> Start" = true /\
+  culprit "content:braces" "+ [Go {x] -> Start" = true /\ culprit "content:braces" "Hello." = false.
+Proof. vm_compute. repeat split; reflexivity. Qed.
+
+(* the nesting cap of inline conditionals in a `-> @join` block stands on the block line (was: no line, until eecafed) *)
+Example culprit_demo_nesting_cap_in_join_block :
+  parse_real ex_pp (fun _ => true) L_depth_join = PDiag (DSyntax "content:nesting-depth" 2) /\
+  located_example L_depth_join "content:nesting-depth" 2 = true /\   (* culprit holds of line 2, the block line *)
+  culprit "content:nesting-depth" "+ [Go] -> @join" = false.
+Proof. vm_compute. repeat split; reflexivity. Qed.
